@@ -1,6 +1,8 @@
 """Locate the real functions in the repository under verification."""
 from __future__ import annotations
 import ast
+import collections
+import copy
 import hashlib
 import os
 
@@ -108,7 +110,7 @@ def desugar_effectful_dictcomps(fnode, is_contract_function):
     contract is read as the equivalent loop
 
         _dcN = {}
-        for _dcN_a, _dcN_b in X.items():
+        for _dcN_0, _dcN_1 in X.items():
             _dcN[K'] = V'          (K', V' = K, V with a, b renamed)
         T = _dcN
 
@@ -151,7 +153,11 @@ def desugar_effectful_dictcomps(fnode, is_contract_function):
                 count[0] += 1
                 g = val.generators[0]
                 tmp = f"_dc{count[0]}"
-                mp = {e.id: f"{tmp}_{e.id}" for e in g.target.elts}
+                # loop variables named by POSITION (_dc1_0, _dc1_1): the
+                # contract's invariants then do not depend on how the
+                # comprehension's variables are spelt in the repository
+                mp = {e.id: f"{tmp}_{k_}" for k_, e in
+                      enumerate(g.target.elts)}
                 ren = _Rename(mp)
                 key = ren.visit(ast.parse(ast.unparse(val.key), mode="eval").body)
                 value = ren.visit(ast.parse(ast.unparse(val.value),
@@ -212,3 +218,272 @@ def class_index(repo):
                     idx.setdefault(n.name, (os.path.relpath(path, base), n))
     _CLASS_INDEX[repo] = idx
     return idx
+
+
+# ---------------------------------------------------------------------------
+# Renamed locals.  The sidecar contracts (loop invariants, lemmas) name local
+# variables of the function they annotate.  When a maintainer renames such a
+# local the text being verified is renamed BACK to the name the contract
+# uses: an alpha-renaming of a genuine local, which cannot change behaviour
+# (conditions checked below).  Which current local corresponds to which
+# recorded one is decided by the *skeleton* of its first binding (the binding
+# construct and the bound expression with all locals abstracted), recorded in
+# baseline/locals.json when the baseline is updated.
+def _scope_info(fnode):
+    """(ordered local names, params, names declared global/nonlocal)"""
+    params = [a.arg for a in (fnode.args.posonlyargs + fnode.args.args +
+                              fnode.args.kwonlyargs)]
+    for a in (fnode.args.vararg, fnode.args.kwarg):
+        if a is not None:
+            params.append(a.arg)
+    declared = set()
+    for n in ast.walk(fnode):
+        if isinstance(n, (ast.Global, ast.Nonlocal)):
+            declared |= set(n.names)
+    return params, declared
+
+
+def local_bindings(fnode):
+    """[(name, skeleton)] for EVERY binding site of the function's own local
+    variables, in source order (comprehension variables are not locals).  The
+    skeleton is the binding construct plus the bound expression with every
+    local, parameter, comprehension variable and lambda parameter abstracted."""
+    params, declared = _scope_info(fnode)
+    found = []          # (name, kind, expr node or None, position)
+
+    def targets(t, kind, expr, pos=()):
+        if isinstance(t, ast.Name):
+            found.append((t.id, kind, expr, pos))
+        elif isinstance(t, (ast.Tuple, ast.List)):
+            for k, e in enumerate(t.elts):
+                targets(e, kind, expr, pos + (k,))
+        elif isinstance(t, ast.Starred):
+            targets(t.value, kind, expr, pos + ("*",))
+
+    def walrus(e):
+        if e is None:
+            return
+        for n in ast.walk(e):
+            if isinstance(n, ast.NamedExpr):
+                targets(n.target, "walrus", n.value)
+
+    def visit(stmts):
+        for s in stmts:
+            if isinstance(s, (ast.FunctionDef, ast.AsyncFunctionDef,
+                              ast.ClassDef)):
+                found.append((s.name, "def", None, ()))
+            elif isinstance(s, ast.Assign):
+                walrus(s.value)
+                for t in s.targets:
+                    targets(t, "assign", s.value)
+            elif isinstance(s, ast.AnnAssign):
+                walrus(s.value)
+                targets(s.target, "assign" if s.value is not None
+                        else "declare", s.value)
+            elif isinstance(s, ast.AugAssign):
+                walrus(s.value)
+                targets(s.target, "aug", s.value)
+            elif isinstance(s, (ast.For, ast.AsyncFor)):
+                walrus(s.iter)
+                targets(s.target, "for", s.iter)
+                visit(s.body)
+                visit(s.orelse)
+            elif isinstance(s, (ast.While, ast.If)):
+                walrus(s.test)
+                visit(s.body)
+                visit(s.orelse)
+            elif isinstance(s, (ast.With, ast.AsyncWith)):
+                for it in s.items:
+                    walrus(it.context_expr)
+                    if it.optional_vars is not None:
+                        targets(it.optional_vars, "with", it.context_expr)
+                visit(s.body)
+            elif isinstance(s, ast.Try):
+                visit(s.body)
+                for h in s.handlers:
+                    if h.name:
+                        found.append((h.name, "except", h.type, ()))
+                    visit(h.body)
+                visit(s.orelse)
+                visit(s.finalbody)
+            elif hasattr(ast, "Match") and isinstance(s, ast.Match):
+                walrus(s.subject)
+                for c in s.cases:
+                    visit(c.body)
+            else:
+                walrus(s)
+    visit(fnode.body)
+    sites = [(n, k, e, p_) for n, k, e, p_ in found
+             if n not in params and n not in declared]
+    abstract = {n for n, _, _, _ in sites} | set(params)
+    for n in ast.walk(fnode):
+        if isinstance(n, ast.comprehension):
+            abstract |= {x.id for x in ast.walk(n.target)
+                         if isinstance(x, ast.Name)}
+        elif isinstance(n, ast.Lambda):
+            abstract |= {a.arg for a in ast.walk(n.args)
+                         if isinstance(a, ast.arg)}
+
+    class _Abs(ast.NodeTransformer):
+        def visit_Name(self, node):
+            return ast.copy_location(ast.Name(
+                id="_" if node.id in abstract else node.id, ctx=ast.Load()),
+                node)
+
+        def visit_arg(self, node):
+            return ast.copy_location(ast.arg(arg="_", annotation=None), node)
+    out = []
+    for name, kind, expr, pos in sites:
+        sk = kind + str(list(pos)) + ":"
+        if expr is not None:
+            sk += ast.dump(_Abs().visit(copy.deepcopy(expr)),
+                           annotate_fields=False)
+        out.append((name, sk))
+    return out
+
+
+def _mergeable(fnode, names):
+    """The audited version used ONE variable where the current version uses
+    several (`for update in a: ...` twice became `update` / `deeper_update`).
+    Giving them one name again keeps the behaviour if their uses do not
+    interleave: every statement of the function body that mentions one of them
+    comes before every statement that mentions the next, and none of them is
+    captured by a lambda, a nested function or a generator expression (which
+    would read the variable later)."""
+    for n in ast.walk(fnode):
+        if isinstance(n, (ast.Lambda, ast.GeneratorExp)) or (
+                isinstance(n, (ast.FunctionDef, ast.AsyncFunctionDef)) and
+                n is not fnode):
+            if any(isinstance(x, ast.Name) and x.id in names
+                   for x in ast.walk(n)):
+                return False
+    spans = []
+    for nm in names:
+        idx = [k for k, st in enumerate(fnode.body)
+               if any(isinstance(x, ast.Name) and x.id == nm
+                      for x in ast.walk(st))]
+        if not idx:
+            return False
+        spans.append((min(idx), max(idx)))
+    spans.sort()
+    return all(a[1] < b[0] for a, b in zip(spans, spans[1:]))
+
+
+def restore_local_names(fnode, recorded, mentioned=None):
+    """recorded: [[name, skeleton], ...] = local_bindings() of the audited
+    version of this function; mentioned: identifiers occurring in the
+    contract's text.  Renames locals of fnode (in place) back to the recorded
+    spelling where that is an alpha-renaming; returns the mapping applied.
+    Raises SourceError when the contract names a local that is no longer bound
+    at as many places as it was (renamed or restructured in a way that cannot
+    be followed): the contract would otherwise silently read another
+    variable."""
+    if not recorded:
+        return {}
+    recorded = [tuple(x) for x in recorded]
+    cur = local_bindings(fnode)
+    params, declared = _scope_info(fnode)
+    every_name = {n.id for n in ast.walk(fnode) if isinstance(n, ast.Name)}
+    every_name |= {a.arg for a in ast.walk(fnode) if isinstance(a, ast.arg)}
+    dynamic = any(isinstance(n, ast.Name) and n.id in (
+        "locals", "vars", "eval", "exec", "globals") for n in ast.walk(fnode))
+    mapping = {}
+    if not dynamic:
+        if [s_ for _, s_ in recorded] == [s_ for _, s_ in cur]:
+            # same binding structure: names correspond site by site
+            fwd, ok = {}, True
+            for (rn, _), (cn, _) in zip(recorded, cur):
+                if fwd.setdefault(cn, rn) != rn:
+                    ok = False      # one current variable, two recorded ones
+            if ok:
+                groups = {}
+                for c, r in fwd.items():
+                    groups.setdefault(r, []).append(c)
+                for r, cs in groups.items():
+                    if len(cs) > 1 and not _mergeable(fnode, cs):
+                        ok = False
+            if ok:
+                mapping = {c: r for c, r in fwd.items() if c != r}
+        else:
+            # statements were added / removed: follow a renamed local by the
+            # skeleton of its first binding, if that identifies it uniquely
+            first_rec, first_cur = {}, {}
+            for n, s_ in recorded:
+                first_rec.setdefault(n, s_)
+            for n, s_ in cur:
+                first_cur.setdefault(n, s_)
+            for old, sk in first_rec.items():
+                if old in first_cur:
+                    continue
+                cands = [n for n, s_ in first_cur.items() if s_ == sk and
+                         n not in first_rec and n not in mapping]
+                if len(cands) == 1 and sum(
+                        1 for s_ in first_rec.values() if s_ == sk) == 1:
+                    mapping[cands[0]] = old
+        # no capture: the recorded spelling must not be in any other use -
+        # unless it is itself renamed away (a permutation), or it is one of
+        # the variables being given one name again (checked by _mergeable)
+        merged_into = {r for r in mapping.values()
+                       if [s_ for _, s_ in recorded] == [s_ for _, s_ in cur]
+                       and any(cn == r for cn, _ in cur)}
+        if any(r in every_name and r not in mapping and r not in merged_into
+               for r in mapping.values()):
+            mapping = {}
+    if mapping:
+        for n in ast.walk(fnode):
+            if isinstance(n, ast.arg) and n.arg in mapping:
+                raise SourceError("a renamed local has the name of a "
+                                  "(nested) parameter: " + n.arg)
+        _Rename(mapping).visit(fnode)
+    if mentioned:
+        now = collections.Counter(n for n, _ in local_bindings(fnode))
+        was = collections.Counter(n for n, _ in recorded)
+        for name in sorted(set(mentioned) & set(was)):
+            if now.get(name, 0) < was[name]:
+                raise SourceError(
+                    f"the contract names the local '{name}', bound at "
+                    f"{was[name]} place(s) in the audited version of this "
+                    f"function and at {now.get(name, 0)} now (renamed or "
+                    f"restructured in a way that cannot be followed)")
+    return mapping
+
+
+def alpha_normalised(fnode):
+    """A copy of the function in which every local variable, comprehension
+    variable, lambda parameter and except-name is spelt `_v<k>` in order of
+    first occurrence (parameters keep their names: they are part of the
+    signature).  Two functions that differ only by a consistent renaming of
+    such names get the same text; used for hashing only."""
+    node = copy.deepcopy(fnode)
+    params, declared = _scope_info(node)
+    own = {n for n, _ in local_bindings(node)}
+    for n in ast.walk(node):
+        if isinstance(n, ast.comprehension):
+            own |= {x.id for x in ast.walk(n.target) if isinstance(x, ast.Name)}
+        elif isinstance(n, ast.Lambda):
+            own |= {a.arg for a in ast.walk(n.args) if isinstance(a, ast.arg)}
+    own -= set(params) | declared
+    order = {}
+
+    class _Canon(ast.NodeTransformer):
+        def visit_Name(self, n):
+            if n.id in own:
+                order.setdefault(n.id, f"_v{len(order)}")
+                return ast.copy_location(ast.Name(id=order[n.id], ctx=n.ctx), n)
+            return n
+
+        def visit_arg(self, n):
+            if n.arg in own:
+                order.setdefault(n.arg, f"_v{len(order)}")
+                n.arg = order[n.arg]
+            return n
+
+        def visit_ExceptHandler(self, n):
+            self.generic_visit(n)
+            if n.name in own:
+                order.setdefault(n.name, f"_v{len(order)}")
+                n.name = order[n.name]
+            return n
+    # ast.NodeTransformer visits fields in source order for statements and
+    # expressions alike, so the numbering follows the text
+    return _Canon().visit(node)
